@@ -800,8 +800,10 @@ structure Volley where
 /-- state of one transport: (idle connections in its pool, connections that carried a request so far). The idle connections
 are gone when the pause reached the idle timeout; the volley takes idle connections as far as they go and dials the rest;
 afterwards the connections of the requests that did not ask to close come back (when the transport keeps connections and
-the answers were not lost), and the pool keeps at most `idleLimit` of them — the surplus is closed. -/
+the answers were not lost), and the pool keeps at most `idleLimit` of them — the surplus is closed. A volley that brings this
+transport nothing changes nothing (`pause` counts from the last volley that did). -/
 def vpoolStep (t : Transport) (st : Nat × Nat) (v : Volley) : Nat × Nat :=
+  if v.k = 0 then st else
   let idle0 := if idleExpired t v.pause then 0 else st.1
   let reused := min idle0 v.k
   let back := if keeps t && !responseLost t v.delay then v.k - v.closing else 0
